@@ -236,6 +236,14 @@ func replyTokens(raw []byte) string {
 // ---- dumps -------------------------------------------------------------------
 func fscore(f float64) string { return strconv.FormatFloat(f, 'f', -1, 64) }
 
+// tokVal: values in dumps are written in full up to 8 KiB so that the judge can rebuild them
+func tokVal(b []byte) string {
+	if len(b) > 8192 {
+		return tokOut(b)
+	}
+	return tokBytes(b)
+}
+
 func valueTokens(v ds.Value) string {
 	if v == nil {
 		return "cold"
@@ -247,7 +255,7 @@ func valueTokens(v ds.Value) string {
 		if x.V == nil {
 			nilv = 1
 		}
-		fmt.Fprintf(&b, "s %d %s", nilv, tokOut(x.V))
+		fmt.Fprintf(&b, "s %d %s", nilv, tokVal(x.V))
 	case *list.LinkedList:
 		el := x.VerifElems()
 		chk := "ok"
@@ -256,19 +264,19 @@ func valueTokens(v ds.Value) string {
 		}
 		fmt.Fprintf(&b, "l %d %d %s", x.LLen(), len(el), chk)
 		for _, e := range el {
-			b.WriteString(" " + tokOut(e))
+			b.WriteString(" " + tokVal(e))
 		}
 	case *hash.HashMap:
 		ks := x.HKeys()
 		fmt.Fprintf(&b, "h %d", len(ks))
 		for _, k := range ks {
-			b.WriteString(" " + tokOut([]byte(k)) + " " + tokOut(x.HGet(k)))
+			b.WriteString(" " + tokVal([]byte(k)) + " " + tokVal(x.HGet(k)))
 		}
 	case *set.Set:
 		ms := x.SMembers()
 		fmt.Fprintf(&b, "S %d", len(ms))
 		for _, m := range ms {
-			b.WriteString(" " + tokOut([]byte(m)))
+			b.WriteString(" " + tokVal([]byte(m)))
 		}
 	case *zset.SortedSet:
 		d, ix := x.VerifDump()
@@ -278,11 +286,11 @@ func valueTokens(v ds.Value) string {
 		}
 		fmt.Fprintf(&b, "z %s %d", chk, len(d))
 		for _, it := range d {
-			b.WriteString(" " + tokOut([]byte(it.Member)) + " " + fscore(it.Score))
+			b.WriteString(" " + tokVal([]byte(it.Member)) + " " + fscore(it.Score))
 		}
 		fmt.Fprintf(&b, " %d", len(ix))
 		for _, it := range ix {
-			b.WriteString(" " + tokOut([]byte(it.Member)) + " " + fscore(it.Score))
+			b.WriteString(" " + tokVal([]byte(it.Member)) + " " + fscore(it.Score))
 		}
 	default:
 		b.WriteString("?")
